@@ -336,3 +336,5 @@ _quick("C08", "C07_valexpired", "(also under C07) an uncut log whose value file 
 
 _quick("C13", "C13_streambuf", "a 64-byte StreamReaderBuffer filled with 1..64 numbered bytes from a connection, then every program of 4 reads (Read into 8 / 24 / 40 bytes or ReadBytesSize of those sizes): the bytes handed out are those that arrived, in order, sizes as a byte queue's, no read past the buffer", ["-witness", "20"])
 _quick("C03", "C18_reconnect2", "(also under C18) replies to requests a closed connection left queued, across two reconnects under the same client id: each is delivered exactly once to the connection that then speaks for the id", ["-witness", "4"], reach=["end", "third", "dropped"])
+
+_quick("C09", "C09_sendfiles", "leader side of a full transfer: 4 persisted records over two log files (rotation after 2), the announced position any of (1,1)..(2,3) including positions behind the last record of a file; the real ReplicationServer.sendFiles writes to a capturing connection: exactly the records before the announced position, in log order, then the end marker", ["-witness", "6"])
